@@ -35,8 +35,8 @@ FIELDS = {
 # special cases of ec2.c) and general A; Tr(A) = 0 (points of order 4, #E = 0 mod 4) and Tr(A) = 1 (#E = 2 mod 4).
 # Attributes are COMPUTED by TLC, not assumed.
 QUICK2 = [("t81d3a", "t81", 3, 0, 3), ("t159d3b", "t159", 3, 1, 1), ("p128d4", "p128", 4, 9, 5), ("p99d3", "p99", 3, 5, 6),
-          ("t105d5", "t105", 5, 0, 9), ("t84d6", "t84", 6, 40, 7)]
-THOROUGH2 = QUICK2 + [("p96d4", "p96", 4, 12, 9), ("p128d4u", "p128", 4, 1, 7), ("t135d5", "t135", 5, 1, 7), ("p192d6", "p192", 6, 33, 7),
+          ("t105d5", "t105", 5, 0, 9)]
+THOROUGH2 = QUICK2 + [("t84d6", "t84", 6, 40, 7), ("p96d4", "p96", 4, 12, 9), ("p128d4u", "p128", 4, 1, 7), ("t135d5", "t135", 5, 1, 7), ("p192d6", "p192", 6, 33, 7),
                       ("t84d7", "t84", 7, 1, 3), ("p128d8", "p128", 8, 0, 29), ("t81d9", "t81", 9, 67, 21)]
 ORACLE_QUICK = [("t81d3a", "t81", 3, 0, 3), ("t81d3b", "t81", 3, 1, 1), ("p128d4", "p128", 4, 9, 5), ("t105d5", "t105", 5, 1, 1)]
 ORACLE_THOROUGH = ORACLE_QUICK + [("p99d3", "p99", 3, 5, 6), ("t84d6", "t84", 6, 40, 7), ("t159d3b", "t159", 3, 1, 1), ("p96d4", "p96", 4, 12, 9)]
@@ -165,7 +165,7 @@ def commands(t, tier, w32=False):
     n = t.n
     bnd = sorted(set(k for k in (0, 1, 2, 3, n - 1, n, n + 1, 2 * n - 1, 2 * n, 2 * n + 1, 2 * n + 2, (n * 7) // 5, n // 2) if 0 <= k <= t.K))
     bl = ",".join(str(k) for k in bnd)
-    small = n <= 40
+    small = n <= 24
     if w32:
         out.append("mul mo=4 hi=0 ks=all")
         out.append("hasorder mo=4 hi=0 ks=all")
@@ -350,8 +350,10 @@ def run_exec(ctx, t, build, tier, drv, fill=None):
     env = {"VERIF_SEED": ctx.seed}
     if fill:
         env["VERIF_FILL"] = fill
+    t_0 = time.time()
     rc, _, err = vlib.run_harness(drv, ["exec"], stdin=cmds.encode(), out_path=outp, env=env, timeout=3000)
     rows = read_rows(outp)
+    vlib.log("[C06/ec2] exec %s %s%s: %d rows, %.0fs" % (t.name, build, " fill" if fill else "", len(rows), time.time() - t_0))
     if rc != 0:
         site = crash_site(err)
         overflow = "heap-buffer-overflow" in err
@@ -378,11 +380,14 @@ def oracle(ctx, tier):
         m, k, l, l1 = FIELDS[f]
         rows.append({"name": n, "m": m, "k": k, "l": l, "l1": l1, "d": d, "A": A, "B": B})
     vlib.write_ndjson(cpath, rows)
-    fl = [FIELDS[f] for f in sorted(FIELDS)] + ([(163, 7, 6, 3), (431, 5, 3, 1)] if tier == "quick" else
-                                                 [(163, 7, 6, 3), (167, 6, 0, 0), (173, 10, 2, 1), (179, 4, 2, 1), (191, 9, 0, 0), (233, 9, 4, 1),
-                                                  (257, 12, 0, 0), (307, 8, 4, 2), (367, 21, 0, 0), (431, 5, 3, 1)])
+    # irreducibility and the reduction / inversion identities in every field used by this tier and in DSTU fields
+    used = sorted(set(FIELDS[c[1]] for c in (QUICK2 if tier == "quick" else THOROUGH2) + list(cur)))
+    fl = used + ([(163, 7, 6, 3), (233, 9, 4, 1)] if tier == "quick" else
+                 [(163, 7, 6, 3), (167, 6, 0, 0), (173, 10, 2, 1), (179, 4, 2, 1), (191, 9, 0, 0), (233, 9, 4, 1),
+                  (257, 12, 0, 0), (307, 8, 4, 2), (367, 21, 0, 0), (431, 5, 3, 1)])
     vlib.write_ndjson(fpath, [{"m": m, "k": k, "l": l, "l1": l1} for (m, k, l, l1) in fl])
-    r = vlib.tlc("EC2Vectors", env={"CURVES2": cpath, "FIELDS2": fpath, "ASSOC_MAX": 26 if tier == "quick" else 70, "WITH_DSTU": 1, "GEN_SEED": ctx.seed},
+    r = vlib.tlc("EC2Vectors", env={"CURVES2": cpath, "FIELDS2": fpath, "ASSOC_MAX": 26 if tier == "quick" else 70,
+                                    "BIG_MAX": 14 if tier == "quick" else 30, "WITH_DSTU": 1, "GEN_SEED": ctx.seed},
                  workers=6 if tier == "quick" else 8, timeout=900 if tier == "quick" else 3000, quiet=True)
     bad = re.findall(r'<<\s*"@BAD",\s*(<<[^>]*>>)', r.out)
     vlib.log("[C06/ec2] EC2Vectors: %.0fs" % r.wall)
@@ -391,23 +396,25 @@ def oracle(ctx, tier):
 
 # ---------------------------------------------------------------------------------------------- (2) record
 def record_cmds(tables, tier, suite=False):
+    """quick / suite: two curves (a two-word trinomial field, the pentanomial field whose degree is a multiple of the word
+    size) with one sixth of the (pair, function) combinations; thorough: four curves, every function on every pair of the
+    first.  The complete sweep is the replay direction; these lines bind the GF(2^m) oracle directly."""
     out = []
     by = {t.name: t for t in tables}
+    quick = suite or tier == "quick"
     first = True
-    for name in ("t81d3a", "p99d3", "t159d3b", "p128d4"):
+    for name in (("t81d3a", "p128d4") if quick else ("t81d3a", "p99d3", "t159d3b", "p128d4")):
         t = by.get(name)
         if t is None:
             continue
         out += curve_cmd(t)
-        if suite:
-            out += ["rpairs all=%d" % (1 if first else 0), "runary", "rmulsub every=%d" % (3 if first else 5), "rison"]
-        else:
-            out += ["rpairs all=%d" % (1 if (first or tier != "quick") else 0), "runary", "rmulsub every=%d" % (2 if tier != "quick" else (3 if first else 5)), "rison"]
+        out += ["rpairs all=%d" % (1 if (first and not quick) else 0), "runary", "rmulsub every=%d" % ((4 if first else 6) if quick else 2),
+                "rison ws=%d" % (0 if suite else 1)]
         first = False
     if suite:
-        std = [("dstu163", 0, 4), ("dstu173", 0, 2), ("dstu257", 0, 2)]
+        std = [("dstu163", 0, 2), ("dstu257", 0, 2)]
     elif tier == "quick":
-        std = [("dstu163", 1, 6), ("dstu173", 0, 4), ("dstu233", 0, 4), ("dstu431", 0, 2)]
+        std = [("dstu163", 0, 4), ("dstu233", 0, 2), ("dstu257", 0, 2)]
     else:
         std = [(n, 5 if n == "dstu163" else (1 if n in ("dstu167", "dstu173") else 0), 12) for n, _ in DSTU]
     oid = dict(DSTU)
@@ -429,6 +436,8 @@ def rec_key(row):
         cls = ":k=%s" % row["cls"]
     elif row["op"] == "ison":
         cls = ":v=%d" % row["v"]
+    elif row["op"] == "group":
+        return "ec2:ec2SeemsValidGroup/ec2IsValid:order-variant=%d:curve=%s" % (row["hv"], row["cv"])
     return "ec2:record:%s%s%s:curve=%s" % (CFUNC.get(f, f) or row["op"], "" if f else row["op"], cls, row["cv"])
 
 
@@ -453,7 +462,7 @@ def record(ctx, tier, drv, tables):
         m = json.loads(json.dumps(row))
         if row["op"] in ("pair", "unary", "mulsub", "addmulsub", "law_addmul") and m.get("R"):
             m["R"][0][0] ^= 1
-        elif row["op"] == "hasordersub" and sum(row["d"][1:]) == 0:
+        elif row["op"] == "hasordersub" and not row["res"]:          # k P # O: TRUE must be rejected
             m["res"] = not m["res"]
         elif row["op"] == "ison" and row["v"] in (0, 3):
             m["res"] = not m["res"]
@@ -487,9 +496,45 @@ def run_part(ctx):
     curves = QUICK2 if ctx.quick else THOROUGH2
     builds = list(BUILDS) if not ctx.quick else ["asan", "asan-w32"]
     drvs = {b: vlib.harness("drv_ec2", ["drv_ec2.c"], BUILDS[b]) for b in builds}
-    fns = [lambda: oracle(ctx, tier)] + [(lambda c=c: gen_tables(ctx, c, workers=2 if ctx.quick else 4)) for c in curves]
-    res = vlib.parallel(fns, n=7 if ctx.quick else 5)
-    (ro, obad, ocur), res = res[0], res[1:]
+    # everything runs concurrently: (0) the oracle validation, the tables of every curve, and - as soon as the tables of a
+    # curve exist - the harness runs of that curve; the record lines need the tables of two curves.  Mismatches are judged
+    # only after the oracle has been validated (a failing oracle makes the run inconclusive).
+    import concurrent.futures as cf
+    rec_names = ("t81d3a", "p128d4") if ctx.quick else ("t81d3a", "p99d3", "t159d3b", "p128d4")
+    fill_names = ("t81d3a", "t159d3b")
+    with cf.ThreadPoolExecutor(max_workers=4 * len(curves) + 8) as ex:
+        sem_gen = __import__("threading").Semaphore(7 if ctx.quick else 4)
+        sem_run = __import__("threading").Semaphore(8)
+
+        def gen(c):
+            with sem_gen:
+                return gen_tables(ctx, c, workers=2 if ctx.quick else 4)
+        f_or = ex.submit(oracle, ctx, tier)
+        f_gen = {c[0]: ex.submit(gen, c) for c in curves}
+
+        def chain(name, slot):
+            t, _ = f_gen[name].result()
+            if t is None:
+                return None
+            with sem_run:
+                if slot == 2:
+                    # fresh memory filled with 0xFF (outside every field whose degree is not a multiple of the word size): a
+                    # debug precondition that looks at the unspecified X, Y of a point at infinity fires on admissible inputs
+                    return (t, "asan", run_exec(ctx, t, "asan", tier, drvs["asan"], fill=255))
+                b = builds_for(t)[slot]
+                return (t, b, run_exec(ctx, t, b, tier, drvs[b]))
+
+        def rec_job():
+            ts = [f_gen[n].result()[0] for n in rec_names if n in f_gen]
+            with sem_run:
+                return record(ctx, tier, drvs["asan"], [x for x in ts if x is not None])
+        f_rec = ex.submit(rec_job)
+        f_ex = [ex.submit(chain, c[0], s) for c in curves for s in ((0, 1, 2) if c[0] in fill_names else (0, 1))]
+        ro, obad, ocur = f_or.result()
+        res = [f_gen[c[0]].result() for c in curves]
+        outs = [f.result() for f in f_ex]
+        rec = f_rec.result()
+    outs = sorted([o for o in outs if o is not None], key=lambda o: (-o[0].n, o[0].name, o[1]))
     states += ro.distinct
     trans += ro.generated
     ev.cov["ec2_oracle_cases_evaluated"] = max(0, (ro.distinct - 1) // 2)
@@ -506,18 +551,8 @@ def run_part(ctx):
             ctx.note_inconclusive("Gen_EC2Small gave no complete tables for %s (rc=%s): %s" % (c[0], r.rc, (r.violation or r.error or "")[:300]))
         else:
             tables.append(t)
-    vlib.log("[C06/ec2] tables of %d curves, %.0fs" % (len(tables), time.time() - t0))
     stats = {"bad": 0}
     compared = 0
-    jobs = [(lambda t=t, b=b: (t, b, run_exec(ctx, t, b, tier, drvs[b]))) for t in sorted(tables, key=lambda x: -x.n) for b in builds_for(t)]
-    # fresh memory filled with 0xFF (outside every field whose degree is not a multiple of the word size): a debug
-    # precondition that looks at the unspecified X, Y of a point at infinity then fires on admissible inputs
-    small = [t for t in tables if t.n <= 20][:2]
-    jobs += [(lambda t=t: (t, "asan", run_exec(ctx, t, "asan", tier, drvs["asan"], fill=255))) for t in small]
-    jobs.append(lambda: ("record", None, record(ctx, tier, drvs["asan"], tables)))
-    outs = vlib.parallel(jobs, n=8)
-    rec = [o for o in outs if o[0] == "record"][0][2]
-    outs = [o for o in outs if o[0] != "record"]
     per_op = {}
     for t, b, rows in outs:
         compared += compare(ctx, t, rows, b, stats)
